@@ -64,6 +64,18 @@ def run(res, ctx):
         glob = rng.random() < 0.5
         if glob:
             ins = [{"sec": "FOO", "td": day, "sd": day, "act": "Split", "split": ratio, "af": None}]
+            if rng.random() < 0.3:
+                # two splits in a row (2-for-1 then 3-for-1 is 6-for-1): the later rows are restated by the product
+                ratio2 = rng.choice([("2", "1"), ("3", "1"), ("3", "2"), ("1.0", "2.0"), ("5", "4")])
+                f2 = Fraction(ratio2[0]) / Fraction(ratio2[1])
+                try:
+                    tail = [scale_row(r, f2) for r in tail]
+                except ValueError:
+                    continue
+                ins.append({"sec": "FOO", "td": day, "sd": day, "act": "Split", "split": ratio2, "af": None})
+                f = f * f2
+                ratio = (ratio[0] + "x" + ratio2[0], ratio[1] + "x" + ratio2[1])
+                st["two-splits-in-a-row"] += 1
         else:
             order = list(afs)
             rng.shuffle(order)
@@ -74,7 +86,7 @@ def run(res, ctx):
             continue
         orig.append({"rows": rows, "inits": inits})
         split.append({"rows": rows[:k] + ins + tail, "inits": inits})
-        meta.append((k, len(ins) if not glob else len(afs), f, ratio, glob))
+        meta.append((k, len(ins), f, ratio, glob))
     ra = corecheck.run_cases(ctx, orig)
     rb = corecheck.run_cases(ctx, split)
     for x, y, (k, nins, f, ratio, glob) in zip(ra, rb, meta):
@@ -112,7 +124,7 @@ def run(res, ctx):
                           {"input_original": x["hc"], "input_with_split": y["hc"], "position": k})
             continue
         # drop the inserted split rows (read indices k .. k+len(ins)-1 of the new input)
-        lo, hi = k, k + (1 if glob else nins) - 1
+        lo, hi = k, k + nins - 1
         rows_b = [d for d in sb["deltas"] if not (d["act"] == "Split" and lo <= d["ri"] <= hi)]
         rows_a = sa["deltas"]
         if len(rows_a) != len(rows_b):
